@@ -15,16 +15,16 @@ import (
 )
 
 var (
-	flagProp   = flag.String("prop", "", "property id (C01..C20) or 'all'")
-	flagTier   = flag.String("tier", "quick", "quick|thorough")
-	flagRepo   = flag.String("repo", "/repo", "repository to analyse")
-	flagVerif  = flag.String("verif", "/verif", "verification directory (evidence, known findings)")
-	flagReplay = flag.String("replay", "", "re-evaluate the rule instance recorded in this replay file")
-	flagList   = flag.Bool("list", false, "list rules")
-	flagV      = flag.Bool("v", false, "print every instance")
-	flagNoEv   = flag.Bool("no-evidence", false, "do not write evidence (used by variant sub-runs)")
-	flagRules  = flag.String("rules", "", "comma separated rule ids to restrict to (variant sub-runs)")
-	flagJSON   = flag.Bool("json", false, "print instances as JSON lines (variant sub-runs)")
+	flagProp    = flag.String("prop", "", "property id (C01..C20) or 'all'")
+	flagTier    = flag.String("tier", "quick", "quick|thorough")
+	flagRepo    = flag.String("repo", "/repo", "repository to analyse")
+	flagVerif   = flag.String("verif", "/verif", "verification directory (evidence, known findings)")
+	flagReplay  = flag.String("replay", "", "re-evaluate the rule instance recorded in this replay file")
+	flagList    = flag.Bool("list", false, "list rules")
+	flagV       = flag.Bool("v", false, "print every instance")
+	flagNoEv    = flag.Bool("no-evidence", false, "do not write evidence (used by variant sub-runs)")
+	flagRules   = flag.String("rules", "", "comma separated rule ids to restrict to (variant sub-runs)")
+	flagJSON    = flag.Bool("json", false, "print instances as JSON lines (variant sub-runs)")
 	flagOverlay = flag.String("overlay", "", "JSON file {path: replacement-file} applied as go/packages overlay (variant sub-runs)")
 )
 
@@ -315,24 +315,24 @@ func runProperty(p *Prog, prop string, loadS float64) int {
 				"explanation": "Static analysis (go/packages type-checked program, go/ssa CFG + dominators, VTA call graph) of /repo's working tree. " +
 					"Decides the structural clauses listed under 'rules' (each a necessary condition of the property; DESIGN.md section 3." + prop + "), not the behaviour itself. " +
 					"An obligation is one rule instance keyed by resolved function/field/callee; 'discharged' counts instances that hold; known findings are listed separately.",
-				"evaluations":        len(all),
+				"evaluations":         len(all),
 				"distinct_nontrivial": nNontriv,
-				"rule":               "one evaluation = one rule instance (rule id + resolved construct); non-trivial = the verdict needed at least one dominance, path-search, access-set, call-graph or value-flow query (as opposed to a table lookup); distinct = distinct (rule,key)",
-				"obligations":        len(all),
-				"discharged":         nHold,
-				"known_findings":     nKnown,
-				"undischarged":       nViol,
-				"rules":              sums,
-				"samples":            samples,
-				"controls_run":       ctrlRan,
-				"packages_analysed":  pk,
-				"functions_analysed": nfn,
-				"fixed_entries":      fixedHere,
-				"exhaustive":         false,
-				"checker_cmd":        "/verif/bin/tpcheck -prop " + prop + " -tier " + *flagTier,
-				"load_s":             loadS,
-				"variants":           vres,
-				"configurations":     append([]string{"linux/amd64 (default)"}, cfgNotes...),
+				"rule":                "one evaluation = one rule instance (rule id + resolved construct); non-trivial = the verdict needed at least one dominance, path-search, access-set, call-graph or value-flow query (as opposed to a table lookup); distinct = distinct (rule,key)",
+				"obligations":         len(all),
+				"discharged":          nHold,
+				"known_findings":      nKnown,
+				"undischarged":        nViol,
+				"rules":               sums,
+				"samples":             samples,
+				"controls_run":        ctrlRan,
+				"packages_analysed":   pk,
+				"functions_analysed":  nfn,
+				"fixed_entries":       fixedHere,
+				"exhaustive":          false,
+				"checker_cmd":         "/verif/bin/tpcheck -prop " + prop + " -tier " + *flagTier,
+				"load_s":              loadS,
+				"variants":            vres,
+				"configurations":      append([]string{"linux/amd64 (default)"}, cfgNotes...),
 			},
 			Assumptions: assumptionsFor(prop),
 			WallS:       wall,
